@@ -46,13 +46,27 @@ Cmp(a, b) == IF Len(a) < Len(b) THEN -1
              ELSE IF Len(a) > Len(b) THEN 1
              ELSE CmpAt(a, b, Len(a))
 
-(* addition *)
-RECURSIVE AddFrom(_, _, _, _)
-AddFrom(a, b, i, c) ==
-  IF i > Len(a) /\ i > Len(b) THEN (IF c = 0 THEN << >> ELSE <<c>>)
-  ELSE LET s == Limb(a, i) + Limb(b, i) + c IN
-       <<s % Base>> \o AddFrom(a, b, i + 1, s \div Base)
-Add(a, b) == AddFrom(a, b, 1, 0)
+(***************************************************************************)
+(* Addition and multiplication by a small factor without deep recursion:   *)
+(* per position the column sum s[i] is below 2*Base, so the carry into     *)
+(* position i+1 is 0 or 1 and is decided by the nearest lower column that  *)
+(* is not exactly Base-1 (carry lookback; chains of Base-1 are short).     *)
+(***************************************************************************)
+RECURSIVE CarryOut(_, _)
+CarryOut(s, i) == IF i = 0 THEN 0
+                  ELSE IF s[i] >= Base THEN 1
+                  ELSE IF s[i] = Base - 1 THEN CarryOut(s, i - 1)
+                  ELSE 0
+(* TLC keeps [i \in 1..n |-> e] unevaluated and re-evaluates e on every   *)
+(* application; SubSeq forces a tuple once                                *)
+Force(f, n) == SubSeq(f, 1, n)
+Resolve(s0) == LET n == Len(s0)
+                   s == Force(s0, n)
+               IN Norm(Force([i \in 1..n |-> (s[i] + CarryOut(s, i - 1)) % Base], n))
+
+Add(a, b) ==
+  LET n == (IF Len(a) > Len(b) THEN Len(a) ELSE Len(b)) + 1 IN
+  Resolve([i \in 1..n |-> Limb(a, i) + Limb(b, i)])
 
 (* subtraction a - b for a >= b *)
 RECURSIVE SubFrom(_, _, _, _)
@@ -63,25 +77,31 @@ SubFrom(a, b, i, br) ==
        ELSE <<s>> \o SubFrom(a, b, i + 1, 0)
 Sub(a, b) == Norm(SubFrom(a, b, 1, 0))
 
-(* a * k + c for small k, c (k <= 32767 when LBits = 16) *)
+(* a * k + c for small k, c (k <= 32767 when LBits = 16, c < Base) *)
 RECURSIVE MulFrom(_, _, _, _)
 MulFrom(a, k, i, c) ==
   IF i > Len(a) THEN FromInt(c)
   ELSE LET p == a[i] * k + c IN
        <<p % Base>> \o MulFrom(a, k, i + 1, p \div Base)
-MulAdd(a, k, c) == IF k = 0 THEN FromInt(c) ELSE MulFrom(a, k, 1, c)
+MulFast(a, k, c) ==        \* k <= Base, c < Base
+  LET n == Len(a) + 1 IN
+  Resolve([i \in 1..n |-> ((Limb(a, i) * k) % Base)
+                          + (IF i = 1 THEN c ELSE (a[i - 1] * k) \div Base)])
+MulAdd(a, k, c) == IF k = 0 THEN FromInt(c)
+                   ELSE IF k <= Base /\ c < Base THEN MulFast(a, k, c)
+                   ELSE MulFrom(a, k, 1, c)
 MulSmall(a, k)  == MulAdd(a, k, 0)
 
 (* shifts (multiplication by / floor division by 2^s) *)
-ShlLimbs(a, q) == IF Len(a) = 0 THEN a ELSE [i \in 1..q |-> 0] \o a
+ShlLimbs(a, q) == IF Len(a) = 0 \/ q = 0 THEN a ELSE [i \in 1..q |-> 0] \o a
 Shl(a, s) == ShlLimbs(MulSmall(a, 2^(s % LBits)), s \div LBits)
 Shr(a, s) ==
   LET q == s \div LBits
       r == s % LBits
       n == Len(a) - q
   IN IF n <= 0 THEN << >>
-     ELSE Norm([i \in 1..n |->
-                  (a[q + i] \div 2^r) + (Limb(a, q + i + 1) % 2^r) * 2^(LBits - r)])
+     ELSE Norm(Force([i \in 1..n |->
+                  (a[q + i] \div 2^r) + (Limb(a, q + i + 1) % 2^r) * 2^(LBits - r)], n))
 LowBits(a, s) == Sub(a, Shl(Shr(a, s), s))        \* a mod 2^s
 MultPow2(a, s) == IsZero(LowBits(a, s))           \* 2^s divides a
 
@@ -101,9 +121,20 @@ DigitsFrom(ds, radix, i, acc) ==
   IF i > Len(ds) THEN acc ELSE DigitsFrom(ds, radix, i + 1, MulAdd(acc, radix, ds[i]))
 FromDigits(ds, radix) == DigitsFrom(ds, radix, 1, Zero)
 
-(* a * 10^k *)
-RECURSIVE MulPow10(_, _)
-MulPow10(a, k) == IF k = 0 THEN a
-                  ELSE IF k >= 4 THEN MulPow10(MulSmall(a, 10000), k - 4)
-                  ELSE MulPow10(MulSmall(a, 10), k - 1)
+(* a * 10^k = (a * 5^k) * 2^k *)
+RECURSIVE MulPow5(_, _)
+MulPow5(a, k) == IF k = 0 THEN a
+                 ELSE IF k >= 6 THEN MulPow5(MulSmall(a, 15625), k - 6)
+                 ELSE MulPow5(MulSmall(a, 5), k - 1)
+MulPow10(a, k) == Shl(MulPow5(a, k), k)
+
+(* general product, b short: schoolbook over the half limbs of b *)
+HalfBits == LBits \div 2
+Halves(b) == Force([j \in 1..(2 * Len(b)) |->
+                IF j % 2 = 1 THEN b[(j + 1) \div 2] % 2^HalfBits ELSE b[j \div 2] \div 2^HalfBits], 2 * Len(b))
+RECURSIVE MulAcc(_, _, _, _)
+MulAcc(a, h, j, acc) ==
+  IF j > Len(h) THEN acc
+  ELSE MulAcc(a, h, j + 1, IF h[j] = 0 THEN acc ELSE Add(acc, Shl(MulSmall(a, h[j]), (j - 1) * HalfBits)))
+Mul(a, b) == IF IsZero(a) \/ IsZero(b) THEN Zero ELSE MulAcc(a, Halves(b), 1, Zero)
 =============================================================================
